@@ -154,8 +154,14 @@ func c15Snapshot(in interface{}) string {
 	}
 }
 
-var c15FirstInt = regexp.MustCompile(`-?[0-9]+`)
+var (
+	c15InjectedAdd = regexp.MustCompile(`c15 add (-?[0-9]+) failed`)
+	c15FirstInt    = regexp.MustCompile(`-?[0-9]+`)
+)
 
+// c15Errs renders the error EndTest returned: one entry per line of its text. A line that carries the harness's own
+// injected collector error (wherever a wrapper put it) is A:<k>; any other line is a histogram's rejection of a value,
+// identified by the first number it names (R:<v>), whatever the wording; a line without a number is U.
 func c15Errs(err error) string {
 	if err == nil {
 		return "R 0"
@@ -165,10 +171,10 @@ func c15Errs(err error) string {
 	fmt.Fprintf(&sb, "R %d", len(lines))
 	for _, l := range lines {
 		var k int64
-		if n, _ := fmt.Sscanf(l, "c15 add %d failed", &k); n == 1 && l == fmt.Sprintf("c15 add %d failed", k) {
+		if m := c15InjectedAdd.FindStringSubmatch(l); m != nil {
+			fmt.Sscanf(m[1], "%d", &k)
 			fmt.Fprintf(&sb, " A:%d", k)
-		} else if m := c15FirstInt.FindString(l); m != "" && !strings.HasPrefix(l, "c15 add") {
-			// a histogram's rejection of a value: identified by the value it names, whatever the wording
+		} else if m := c15FirstInt.FindString(l); m != "" {
 			fmt.Sscanf(m, "%d", &k)
 			fmt.Fprintf(&sb, " R:%d", k)
 		} else {
